@@ -28,7 +28,7 @@ BUDGET = {
     "thorough": {"budget_s": 900, "chunk": 80, "shrink_s": 120},
 }
 RULE = (
-    "cases: generated source tree (1-10 entries: names with spaces/unicode, empty/binary/70 KB files, modes 0600-0755, "
+    "cases: generated source tree (1-10 entries: names with spaces/unicode/leading dots, empty/binary/70 KB files, modes 0600-0755, "
     "integer and fractional mtimes, nested dirs, relative/absolute/dangling/outside symlinks) x prior target state "
     "(empty, stale copy, plain copy with other mtimes/modes, same mtime but other size, same size with the mtime in the "
     "same second, entries of another kind, unrelated extras) x trailing slashes on the paths x targets named by absolute or relative paths (receiver and sender in different working directories) x delete flag x 1-3 targets x cwd inside/outside the "
@@ -50,7 +50,7 @@ COMPONENTS = {
     "real-not-simulated": ["the file system of the scratch tree"],
 }
 
-NAMES = ["a", "b.txt", "with space", "ünï", "d", "e.bin", "sub", "x y z", "L"]
+NAMES = ["a", "b.txt", "with space", "ünï", "d", "e.bin", "sub", "x y z", "L", "..data", "...", "..2", ".hid"]
 
 
 # ---------------------------------------------------------------------------
@@ -162,6 +162,10 @@ def link_text(e, tree, srcdir, outside):
     if e["how"] == "rel-in":
         return os.path.relpath(os.path.join("/r", tgt), os.path.join("/r", here) if here else "/r")
     if e["how"] == "abs-in":
+        dotted = [f for f in files if f.startswith("..")]
+        if dotted and e["pick"] % 2:
+            # an in-tree name that merely begins with two dots is not "outside"
+            tgt = dotted[e["pick"] % len(dotted)]
         return os.path.join(srcdir, tgt)
     if e["how"] == "abs-out":
         return os.path.join(outside, "elsewhere")
